@@ -17,7 +17,7 @@ from ..world import h64
 
 ID = "C17"
 RULE = (
-    "boxes = all pairs lo < hi from a 19-value alphabet (decimal, tiny, huge) plus 7 very narrow boxes (width 1e-15 .. 1e-12, at the origin and offset); inputs per box = lo/hi/mid + k*range for k in -5..5, each "
+    "boxes = (also combined three at a time as the dimensions of ONE call - heterogeneous multi-dimensional boxes) all pairs lo < hi from a 19-value alphabet (decimal, tiny, huge) plus 7 very narrow boxes (width 1e-15 .. 1e-12, at the origin and offset); inputs per box = lo/hi/mid + k*range for k in -5..5, each "
     "shifted by -3..+3 ulps, plus an interior grid, plus 0.0 and +-1e300 guard values; methods clip/reflect/toroidal; each (box, input, "
     "method) is one application of the real apply_bounds, judged exactly (fractions); thorough: the same oracle over all 63488 finite "
     "float16 values x 40 float16 boxes; non-trivial = the input lies outside the box or within 3 ulps of a face"
@@ -117,6 +117,10 @@ def judge(res, lo, hi, x, method, r, rep, dtype_ulp=None):
 def units(tier, seed):
     bs = boxes()
     us = [{"kind": "f64", "boxes": bs[i : i + 6]} for i in range(0, len(bs), 6)]
+    # heterogeneous multi-dimensional boxes: three different (lo, hi) pairs as the dimensions of one call
+    wide = [b for b in bs if b[1] - b[0] >= 1e-9]
+    triples = [(wide[i], wide[(i * 7 + 3) % len(wide)], wide[(i * 13 + 5) % len(wide)]) for i in range(0, len(wide), 3)]
+    us += [{"kind": "f64multi", "triples": triples[i : i + 8]} for i in range(0, len(triples), 8)]
     if tier == "thorough":
         v16 = [-5.0, -3.0, -0.1, 0.2, 0.3, 1.0, 3.0, 5.0, 123.4, 1000.0]
         b16 = [(a, b) for a, b in itertools.combinations(v16, 2)][:40]
@@ -154,6 +158,24 @@ def run_unit(unit):
             res.configs_completed += 1
             if len(res.samples) < 2:
                 res.samples.append({"box": [lo, hi], "inputs": xs[:8], "reflect": [float(v) for v in apply_bounds(np.array(xs[:8]).reshape(-1, 1), bounds, "reflect").reshape(-1)]})
+    elif unit["kind"] == "f64multi":
+        for tri in unit["triples"]:
+            cols = [inputs_for(lo, hi) for lo, hi in tri]
+            m = min(len(c) for c in cols)
+            G = np.array([c[:m] for c in cols], dtype=float).T  # (m, 3)
+            bounds = np.array([[lo, hi] for lo, hi in tri], dtype=float)
+            for method in METHODS:
+                out = np.asarray(apply_bounds(G.copy(), bounds, method), dtype=float)
+                for j, (lo, hi) in enumerate(tri):
+                    for x, r in zip(G[:, j], out[:, j]):
+                        rep = {"check": ID, "unit": {"kind": "f64multi"}, "desc": {"lo": lo, "hi": hi, "x": float(x), "method": method, "other_dims": [list(b) for b in tri]}, "dev": []}
+                        res.executions += 1
+                        judge(res, lo, hi, float(x), method, float(r), rep)
+                res.transitions.add(h64(("multi", tri, method)))
+            res.states.add(h64(("multi", tri)))
+            res.flags["heterogeneous multi-dimensional box"] += 1
+            res.configs += 1
+            res.configs_completed += 1
     else:
         allv = np.arange(0, 65536, dtype=np.uint16).view(np.float16)
         allv = allv[np.isfinite(allv)]
@@ -214,6 +236,8 @@ def run_unit(unit):
 def finish(res, tier):
     if len(res.nontrivial) < 1000:
         raise Vacuous("too few outside / face inputs")
+    if res.flags["heterogeneous multi-dimensional box"] < 20:
+        raise Vacuous("heterogeneous boxes not exercised")
     return {"applications": res.executions, "float16_applications": res.extra.get("float16 applications", 0),
             "exhaustive": True}
 
@@ -223,6 +247,15 @@ def replay(rep):
 
     d = rep["desc"]
     res = Result()
+    if d.get("other_dims"):
+        bounds = np.array(d["other_dims"], dtype=float)
+        j = next(i for i, b in enumerate(d["other_dims"]) if b[0] == d["lo"] and b[1] == d["hi"])
+        g = np.array([[(b[0] + b[1]) / 2 for b in d["other_dims"]]], dtype=float)
+        g[0, j] = d["x"]
+        r = np.asarray(apply_bounds(g, bounds, d["method"]), dtype=float)[0, j]
+        print(f"apply_bounds(..., dim {j}: {d['x']!r}, box {d['other_dims']}, {d['method']}) -> {float(r)!r}")
+        judge(res, d["lo"], d["hi"], d["x"], d["method"], float(r), rep)
+        return res.violations
     dt = np.float16 if d.get("dtype") == "float16" else float
     bounds = np.array([[d["lo"], d["hi"]]], dtype=dt)
     r = np.asarray(apply_bounds(np.array([[d["x"]]], dtype=dt), bounds, d["method"])).reshape(-1)[0]
